@@ -59,6 +59,12 @@ def spansetStep (env : SSEnv) (ws : List String) : SSEnv × String :=
   | ["has", a, s, e] => match ssGet env a, s.toInt?, e.toInt? with
     | some A, some s, some e => (env, b01 (mem A (s, e)))
     | _, _, _ => (env, "bad-op")
+  | ["copy", a, c] => match ssGet env a, c.toNat? with
+    | some A, some n => (ssPut env n A, "ok " ++ showSpans A.spans)
+    | _, _ => (env, "bad-op")
+  | ["setrel", a, r] => match ssGet env a, a.toNat?, parseRel r with
+    | some A, some n, some r => (ssPut env n { A with rel := r }, "ok " ++ showSpans A.spans)
+    | _, _, _ => (env, "bad-op")
   | ["len", a] => match ssGet env a with
     | some A => (env, s!"ret {A.spans.length}")
     | none => (env, "bad-op")
